@@ -27,12 +27,18 @@ RULE = ("about 70% of the file cases go through O2JMapSet.read(bytes), the rest 
         "pathlib.Path); claim seq reads 2-3 files 2-5 times in one process through any entry point (same song id, same packages "
         "under another header tempo, a head left open followed by a file starting with a tail on that column, files repeated), "
         "takes the results off the returned objects only after all reads (difficulties interleaved) and lets one O2JMapSetMeta "
-        "instance read every header in turn; each read is judged against the model/specification of its own bytes. "
+        "instance read every header in turn; each read is judged against the model/specification of its own bytes; "
+        "claim sess is a session in one fresh process: 1-3 files under 1-2 paths, read 2-5 times through read_file under different "
+        "spellings of the same path (absolute, Path, /./, /../, relative, symlinks) and read(bytes), every earlier result edited in "
+        "place between the reads (20 editing routes), files rewritten between reads (other/same content, same size with the old "
+        "mtime), every read judged right after the call against the bytes the path held then. "
         "Generated .ojn byte strings: random header (all 23 fields, NULs and non-ASCII bytes in the texts), three "
         "difficulties of 0-40 (thorough: 0-200) packages, slot counts 1-192, note channels 2-8 with hits and long notes "
         "spanning packages and measures, 0-30 tempo events anywhere (position 0, inside one measure, coinciding with notes, "
         "after the last note), autoplay/unknown channels, trailing bytes, shuffled package order, and a small share of "
-        "ill-formed files (truncated, unpaired tails, measure-fraction packages, tempo 0/negative, short header); "
+        "ill-formed files (truncated, unpaired tails, measure-fraction packages, tempo 0/negative, short header); about 14% of the "
+        "files carry tempo floats from the rest of the float32 range as bit patterns (NaN of both signs and several payloads, "
+        "+-inf, the largest floats, subnormals and very small numbers, -0.0) as events and as header tempo; "
         "claims f32/int check the byte decoders on random bit patterns; non-trivial = a difficulty with at least two "
         "tempo events and a note after the second, or a long note crossing a package boundary")
 ASSUMPTIONS = [
@@ -199,6 +205,67 @@ def add_specials(rng, level, hdr_holder=None):
             level.append(dict(m=m, ch=1, ev=b))
         else:           # tiny, after everything else
             level.append(dict(m=hi + rng.choice([1, 2, 7]), ch=1, ev=[gen_special(rng, ("tiny",))]))
+
+
+def bookify(case):
+    """make a file description by-the-book (in place): empty slots and events of unknown type become four zero bytes,
+    packages of channels other than 1..8 are dropped, the event count is the number of events, no truncation / count
+    overrides - what an encoder working from an abstract chart writes"""
+    case.pop("opts", None)
+    for l in case["levels"]:
+        l[:] = [p for p in l if 1 <= p["ch"] <= 8]
+        for p in l:
+            p.pop("n", None)
+            if p["ch"] != 1:
+                p["ev"] = [e if (e[0] != 0 and e[2] in (0, 2, 3)) else [0, 0, 0] for e in p["ev"]]
+    return case
+
+
+def f32_parts(x):
+    """[sign, exponent, mantissa] of a tempo entry"""
+    u = struct.unpack("<I", pack_f(x))[0]
+    return [u >> 31, (u >> 23) & 255, u & (2 ** 23 - 1)]
+
+
+def abstract(case):
+    """the abstract chart (input of the Lean encoder model `encodeChart`) of a by-the-book file description, or None"""
+    if case.get("opts"):
+        return None
+    h = case["hdr"]
+    try:
+        hdr = {k: h[k] for k in HDR_INTS + HDR_SHORTS + HDR_INT3 + ["level"]}
+        for k in HDR_TEXT:
+            hdr[k] = list(h[k].encode("latin-1"))
+        hdr["encode_version"] = f32_parts(h["encode_version"])
+        hdr["bpm"] = f32_parts(h["bpm"])
+    except (UnicodeEncodeError, KeyError):
+        return None
+    levels = []
+    for l in case["levels"]:
+        al = []
+        for p in l:
+            if "n" in p or len(p["ev"]) >= 2 ** 15:
+                return None
+            if p["ch"] == 1:
+                sl = []
+                for e in p["ev"]:
+                    parts = f32_parts(e)
+                    sl.append(None if parts == [0, 0, 0] else parts)
+                al.append(dict(k="t", m=p["m"], sl=sl))
+            elif 2 <= p["ch"] <= 8:
+                sl = []
+                for e in p["ev"]:
+                    if e == [0, 0, 0]:
+                        sl.append(None)
+                    elif e[0] != 0 and e[2] in (0, 2, 3):
+                        sl.append([e[0], e[2], e[1] // 16, e[1] % 16])
+                    else:
+                        return None
+                al.append(dict(k="n", m=p["m"], c=p["ch"] - 2, sl=sl))
+            else:
+                return None
+        levels.append(al)
+    return dict(hdr=hdr, levels=levels, tail=list(case.get("tail") or []))
 
 
 def gen_text(rng, n):
@@ -444,6 +511,8 @@ def gen_file(rng, tier, small=False):
                 for p in l:
                     if p["m"] < 0:
                         p["m"] = 0
+    if not ill and rng.random() < 0.35:
+        bookify(case)
     if ill:
         k = rng.randrange(8)
         opts = {}
@@ -1106,6 +1175,19 @@ def run_read_inproc(case, drv):
     impl = run_impl(data, via)
     j = judge(impl, drv.call("c07.run", b=list(data)))
     nt, ttag = file_stats(case)
+    ab = abstract(case)
+    if ab is not None:
+        # the encoder model of the round-trip theorem `read_encode`: its bytes are the bytes both sides just read, and the
+        # abstract chart's own timeline is the specification's set of those bytes
+        e = drv.call("c07.encode", **ab)
+        j["tags"].append("by-the-book")
+        if "ok" not in e or bytes(e["ok"]["bytes"]) != data or not e["ok"]["timeline_eq"]:
+            j["agree"] = False
+            j["detail"]["encoder"] = ("Lean encodeChart differs from the harness serialiser" if "ok" in e and bytes(e["ok"]["bytes"]) != data
+                                      else "aTimeline differs from specSet of the encoded bytes" if "ok" in e else _short(e))
+        elif j["wf"] and not e["ok"]["wf"]:
+            j["agree"] = False
+            j["detail"]["encoder"] = "encoded chart not wellFormed"
     return dict(claim="read", ok=j["ok"], agree=j["agree"], dom=j["dom"], kf=None, tags=j["tags"] + [ttag, "via:" + via],
                 nontrivial=nt and j["wf"], maxdev=j["maxdev"], boundary=False, detail=j["detail"])
 
